@@ -4,6 +4,7 @@ import CMacVerif.Lemmas.AtomicsQueue
 import CMacVerif.Lemmas.AtomicsCtr
 import CMacVerif.Lemmas.AtomicsRun
 import CMacVerif.Lemmas.AtomicsHydro
+import CMacVerif.Lemmas.AtomicsMax
 /-!
 # C08 — shared scheduler containers never give one slot or task to two owners
 
@@ -104,7 +105,7 @@ theorem owned_disjoint (cfg : Cfg) (progs : List (List Cmd)) (sched : List Nat) 
 slot 0; thread 1, preempted between its flag CAS and its counter increment, gets slot 0 -/
 example :
     let s := run { size := 2, cap := 200, deps := fun _ => (none, none) } (init [[.get, .get, .free 1], [.get]])
-      ([0,0,0,0,0,0, 0,0,0,0,0,0, 1,1,1,1, 0,0,0, 1,1, 1,1,1,1])
+      ([0,0,0,0,0,0,0, 0,0,0,0,0,0,0, 1,1,1,1, 0,0,0, 1,1, 1,1,1,1,1])
     (s.threads.map (·.owned)) = [[1], [0]] ∧ s.mem.cur = 5 ∧ s.mem.taken = 2 := by decide
 
 /-- **quiescent_count**, general form: in every reachable state
@@ -455,7 +456,7 @@ example : ∀ p ∈ [[Cmd.getSafe, .addPhotons 0 150, .addPhotons 0 100, .freeBu
 /-- non-vacuity: 150 + 100 packets: the target fills up (200), 50 go to a fresh buffer -/
 example :
     let s := run { size := 3, cap := 200, deps := fun _ => (none, none) }
-      (init [[.getSafe, .addPhotons 0 150, .addPhotons 0 100]]) (List.replicate 19 0)
+      (init [[.getSafe, .addPhotons 0 150, .addPhotons 0 100]]) (List.replicate 21 0)
     (List.range 3).map s.mem.count = [200, 50, 0] ∧ s.threads.map (·.owned) = [[1, 0]] ∧
     s.threads.map (·.lost) = [0] := by decide
 
@@ -651,5 +652,52 @@ example :
       (List.replicate 23 0 ++ List.replicate 11 1)
     s.mem.num = 0 ∧ s.mem.items 0 = [] ∧ s.threads.map (·.tasks) = [[], []] ∧
     (s.threads.map (·.pc)).head? = some (.numInc 0 1 (.rel 0 [2])) := by decide
+
+/-! ## AtomicValue::max (load; compare-exchange loop with reload) -/
+
+/-- **max_monotone**: from ANY state, along ANY schedule of any number of threads, a cell that is
+updated through `max` (and `_max_number_taken` of the slot pool) never decreases — in
+particular a CAS that was beaten by a larger value does not write a smaller one over it. -/
+theorem max_monotone (cfg : Cfg) (s : State) (sched : List Nat) (c : Nat) :
+    s.mem.mx c ≤ (run cfg s sched).mem.mx c ∧ s.mem.maxTaken ≤ (run cfg s sched).mem.maxTaken :=
+  run_mx_mono cfg c sched s
+
+/-- **max_is_maximum**, general form with pending calls: in every reachable state the cell is at
+most the maximum of the initial value 0 and all arguments of all `max` calls of all threads, and
+every argument is either still pending (its call has not completed its successful
+compare-exchange) or `≤` the cell. -/
+theorem max_general (cfg : Cfg) (progs : List (List Cmd)) (sched : List Nat) (c : Nat) :
+    let s := run cfg (init progs) sched
+    s.mem.mx c ≤ lmax (allVals c progs) ∧
+    ∀ v ∈ allVals c progs,
+      (∃ (k : Nat) (th : Thread), s.threads[k]? = some th ∧ v ∈ pendVals c th) ∨ v ≤ s.mem.mx c := by
+  refine ⟨(run_inv cfg (MaxUB c _) (fun s tid h => maxUB_step cfg c _ s tid h) _ sched (maxUB_init c progs)).1, ?_⟩
+  intro v hv
+  exact run_inv cfg (MaxLB c v) (fun s tid h => maxLB_step cfg c v s tid h) _ sched
+    (Or.inl (mem_allVals c progs v hv))
+
+/-- **max_is_maximum**: once all calls have completed, the cell holds exactly
+max(initial value, v₁, …, vₙ), whatever the interleaving of the loads and compare-exchanges. -/
+theorem max_is_maximum (cfg : Cfg) (progs : List (List Cmd)) (sched : List Nat) (c : Nat)
+    (hdone : ∀ th ∈ (run cfg (init progs) sched).threads, th.pc = .idle ∧ th.prog = []) :
+    (run cfg (init progs) sched).mem.mx c = lmax (allVals c progs) := by
+  obtain ⟨hub, hlb⟩ := max_general cfg progs sched c
+  have hge : ∀ v ∈ allVals c progs, v ≤ (run cfg (init progs) sched).mem.mx c := by
+    intro v hv
+    rcases hlb v hv with ⟨k, th, hk, hp⟩ | h
+    · obtain ⟨h1, h2⟩ := hdone th (List.mem_of_getElem? hk)
+      simp [pendVals, h1, h2, pcMaxVal] at hp
+    · exact h
+  have h0 : (0 : Int) ≤ (run cfg (init progs) sched).mem.mx c := by
+    have := (max_monotone cfg (init progs) sched c).1
+    simpa [init] using this
+  exact Int.le_antisymm hub (lmax_le _ _ h0 hge)
+
+/-- non-vacuity, the interleaving of the seeded defect: thread 0 loads 0 for `max(5)`, thread 1
+completes `max(9)`, thread 0's compare-exchange fails, it reloads 9 and writes max(5,9) = 9 -/
+example :
+    let s := run { size := 1, cap := 200, deps := fun _ => (none, none) }
+      (init [[.maxC 0 5], [.maxC 0 9]]) [0, 0, 1, 1, 1, 0, 0, 0]
+    s.mem.mx 0 = 9 ∧ s.threads.all Thread.finished = true := by decide
 
 end CMacVerif.Atomics
